@@ -80,7 +80,12 @@ def detect_traits():
     if TRAITS["v"] is None:
         r = ph.run_scenario({"cfg": dict(n=1, block=False, retries="F", preload=False, release=False, route="direct"),
                              "steps": [{"op": "req", "id": 1, "atts": ["ok_ka"]}, {"op": "disp", "id": 1, "how": "release"}]})
-        TRAITS["v"] = "MCTraitsOldRelease" if r["obs"]["fin"]["pooled_open"] == 1 else "MCTraitsNone"
+        old_release = r["obs"]["fin"]["pooled_open"] == 1
+        r = ph.run_scenario({"cfg": dict(n=1, block=False, retries="F", preload=True, release=True, route="fwd"),
+                             "steps": [{"op": "req", "id": 1, "atts": ["r_eof"]}]})
+        d2 = r["obs"]["reqs"][0]["out"] == "ProxyError"
+        TRAITS["v"] = {(False, False): "MCTraitsNone", (True, False): "MCTraitsOldRelease", (False, True): "MCTraitsD2",
+                       (True, True): "MCTraitsOldReleaseD2"}[(old_release, d2)]
     return TRAITS["v"]
 
 
